@@ -876,6 +876,51 @@ fn stale_ids(which: u64, ctx: &mut Ctx) {
 				ctx.transitions += 6;
 				ctx.nontrivial(hash64(&("resume on removed clock", persisting_host)));
 			}
+			// a streaming sound whose decoder fails while the sound is not audible (paused / waiting for its start time): it
+			// becomes Stopped and is unloaded all the same - its slot is free again
+			for state in 0..3 {
+				crate::pacer::set_mode(crate::pacer::Mode::Pacer);
+				let mut m = rig::manager(sr, 4, rig::caps(2), MainTrackBuilder::new().sound_capacity(1));
+				let first = crate::pacer::count();
+				let (mut dec, stats) = crate::probes::ScriptedDecoder::new(rig::dc_frames(4096, 0.25), sr, vec![4], 1);
+				// the 6th packet cannot be decoded
+				dec.fail_decode_at = Some(6);
+				dec.fail_forever = true;
+				let mut data = kira::sound::streaming::StreamingSoundData::from_decoder(dec);
+				if state == 2 {
+					data = data.start_time(StartTime::Delayed(Duration::from_secs(1000)));
+				}
+				let mut h = m.play(data).map_err(|_| ()).expect("play");
+				// two packets are delivered and heard
+				crate::pacer::step(first, 8);
+				cb(&mut m, &mut buf, ctx, "decoder failure while not audible");
+				if state == 1 {
+					h.pause(Tween { duration: Duration::ZERO, ..Default::default() });
+					cb(&mut m, &mut buf, ctx, "decoder failure while not audible");
+				}
+				// the decoder runs on into the failing packet
+				crate::pacer::step(first, 40);
+				for _ in 0..4 {
+					cb(&mut m, &mut buf, ctx, "decoder failure while not audible");
+				}
+				let what = format!("streaming sound ({}) whose decoder fails at its 6th packet; 4 callbacks after the failure", ["playing", "paused", "waiting for a delayed start"][state]);
+				let err = h.pop_error();
+				if err.is_none() {
+					ctx.fail("machinery: the scripted decoder failure did not reach the handle :: decoder failure while not audible", what.clone());
+				}
+				if h.state() != PlaybackState::Stopped {
+					ctx.fail("a streaming sound whose decoder failed does not become Stopped :: decoder failure while not audible", format!("{}: state {:?}", what, h.state()));
+				}
+				if m.main_track().num_sounds() != 0 {
+					ctx.fail("a streaming sound whose decoder failed is never unloaded (its slot leaks) :: decoder failure while not audible", format!("{}: num_sounds {}", what, m.main_track().num_sounds()));
+				} else if m.play(dc_loop()).is_err() {
+					ctx.fail("the slot of a failed streaming sound is not free again :: decoder failure while not audible", what.clone());
+				}
+				ctx.transitions += 6;
+				ctx.nontrivial(hash64(&("decoder failure", state)));
+				drop(m);
+				crate::probes::reap_decoder(first, &stats);
+			}
 			// a track whose handle is dropped while something keeps it alive, and whose playback state changes AFTER the drop
 			// (a pause fade that ends later, a pause / resume issued just before the drop): it is still removed once nothing
 			// keeps it alive
